@@ -568,9 +568,12 @@ class IBound(object):
 class Summary(object):
     """A callee replaced by its contract: fn(interp, args, kwargs) -> value."""
 
-    def __init__(self, fn, name=None):
+    contract = True      # False for library-method models without ghost effects
+
+    def __init__(self, fn, name=None, contract=True):
         self.fn = fn
         self.name = name or getattr(fn, "__name__", "summary")
+        self.contract = contract
 
     def __repr__(self):
         return "Summary<%s>" % self.name
@@ -916,13 +919,17 @@ class Interp(object):
         kwargs = kwargs or {}
         self.steps += 1
         if isinstance(f, Summary):
+            if f.contract and self.merge_depth > 0:
+                # a callee contract has effects on harness-side ghost state:
+                # never run it inside a tentative (merge) execution
+                raise NeedFork()
             return f.fn(self, list(args), kwargs)
         if isinstance(f, IBound):
             return self.call(f.func, [f.self_obj] + list(args), kwargs)
         if isinstance(f, IFunc):
             q = "%s.%s" % (f.module.name, f.qualname)
             if q in self.summaries and not getattr(f, "force_inline", False):
-                return self.summaries[q].fn(self, list(args), kwargs)
+                return self.call(self.summaries[q], args, kwargs)
             return self.call_ifunc(f, args, kwargs)
         if isinstance(f, SObj):
             m = self.getattr(f, "__call__")
@@ -1073,7 +1080,12 @@ class Interp(object):
                 frame.vars[p.arg] = self.eval(d, Frame(f.module, f.closure, f))
             else:
                 raise IRaise(TypeError("missing keyword argument %s" % p.arg))
-        if a.kwarg:
+        if a.kwarg and "__symbolic_kwargs__" in kwargs:
+            # harness-supplied **kwargs with symbolic presence bits (a copy,
+            # as Python builds a fresh dict for **kwargs)
+            src = kwargs.pop("__symbolic_kwargs__")
+            frame.vars[a.kwarg.arg] = self.new_dict(src.entries)
+        elif a.kwarg:
             frame.vars[a.kwarg.arg] = self.new_dict({k: (True, v) for k, v in kwargs.items()})
         elif kwargs:
             raise IRaise(TypeError("%s() got an unexpected keyword argument %r"
@@ -1347,7 +1359,7 @@ class Interp(object):
         f0 = {id(f): v for f, v in s0[1]} if s0 is not None else {}
         # objects allocated inside an arm cannot be identified across arms
         # unless unreachable afterwards; we allow them only if not referenced
-        base = min(n1, n2)
+        base = min(n1, n2) if s0 is None else s0[0][0]
         objs = self.heap.objs
         merged_heap = []
         for i in range(base):
@@ -1628,6 +1640,9 @@ class Interp(object):
             if isinstance(v, _Poison):
                 raise OutsideSubset("variable %s defined on one branch only" % name)
             return v
+        ov = getattr(self, "global_overrides", None)
+        if ov and (frame.module.name, name) in ov:
+            return ov[(frame.module.name, name)]
         g = frame.module.live.__dict__
         if name in g:
             v = g[name]
